@@ -4,6 +4,7 @@ package peer
 
 import (
 	"context"
+	"errors"
 	"sort"
 	"sync"
 
@@ -59,6 +60,13 @@ type e7Bus struct {
 	attempts []int  // Publish calls per endpoint (also counted when silenced)
 	seqs     []int  // messages actually queued per endpoint
 	silenced []bool // crashed endpoints
+	// Publish errors (a Redis outage as seen by the publisher): while FaultsOn,
+	// the k-th Publish call of endpoint ep fails -- returns an error, queues
+	// nothing -- iff failScript[ep][k]. The script is drawn by the driver when the
+	// endpoint is created, so the publishing goroutines never touch the PRNG.
+	FaultsOn   bool
+	failScript [][]bool
+	PublishErrors int
 	// measured
 	Delivered, Reordered, Duplicated, Swallowed int
 	// OnDeliver, if set, is told about every delivery before the callback runs.
@@ -69,10 +77,19 @@ type e7Bus struct {
 
 func newE7Bus() *e7Bus { return &e7Bus{} }
 
-// Endpoint creates the pubsub handle of a new node.
-func (b *e7Bus) Endpoint() *e7Endpoint {
+// SetFaults switches the scripted Publish errors on or off.
+func (b *e7Bus) SetFaults(on bool) {
+	b.mu.Lock()
+	b.FaultsOn = on
+	b.mu.Unlock()
+}
+
+// Endpoint creates the pubsub handle of a new node; failScript[k] says whether
+// its k-th Publish call fails while faults are on (nil = never).
+func (b *e7Bus) Endpoint(failScript []bool) *e7Endpoint {
 	b.mu.Lock()
 	defer b.mu.Unlock()
+	b.failScript = append(b.failScript, failScript)
 	b.attempts = append(b.attempts, 0)
 	b.seqs = append(b.seqs, 0)
 	b.silenced = append(b.silenced, false)
@@ -239,6 +256,11 @@ func (e *e7Endpoint) Publish(ctx context.Context, topic, message string) error {
 	b := e.bus
 	b.mu.Lock()
 	defer b.mu.Unlock()
+	if k := b.attempts[e.idx]; b.FaultsOn && !b.silenced[e.idx] && k < len(b.failScript[e.idx]) && b.failScript[e.idx][k] {
+		b.PublishErrors++
+		b.attempts[e.idx]++
+		return errors.New("e7: injected publish error (redis unavailable)")
+	}
 	if !b.silenced[e.idx] {
 		seq := b.seqs[e.idx]
 		b.seqs[e.idx]++
